@@ -1,4 +1,5 @@
 import ClientGoVerif.Model.VLog
+import ClientGoVerif.Model.Batched
 import ClientGoVerif.Model.ArtNode
 import ClientGoVerif.Model.ArtTree
 open CGV CGV.MemBuf
@@ -236,6 +237,14 @@ partial def stepWords (d : DS) (w : List String) : DS × String :=
   | ["nrlist"] =>
     let l := d.node.children.reverse
     (d, l.foldl (fun acc p => acc ++ " " ++ toString p.2) s!"{l.length}:")
+  | ["gsiter", lo, hi, r] =>
+    -- GetSnapshot().BatchedSnapshotIter: the model runs the batches (resume keys, doubling batch sizes) itself
+    match bound lo, bound hi with
+    | some lo, some hi =>
+      let l := if r == "1" then d.m.batchedRev lo hi (batchSizes 64 32) else d.m.batchedFwd lo hi (batchSizes 64 32)
+      (d, showItems false l)
+    | _, _ => (d, "bad-op")
+  | ["gschk", _lo, _hi, _r] => (d, "ok")
   | ["view"] =>
     let v := viewOf d.m
     (d, s!"{showItems true v.items} len={v.len} size={v.size} dirty={d.m.dirty} stages={d.m.stages.length}")
